@@ -269,6 +269,17 @@ impl<'w, 'r, W: Write> ser::Serializer for Serializer<'w, 'r, W> {
             self.ser(errs_())?.serialize_i64(value)
         }
 //@end
+//@extract se::Serializer::serialize_i128 | src/se/mod.rs :: impl<'w, 'r, W: Write> ser::Serializer for Serializer<'w, 'r, W> :: invoke serde_if_integer128 :: invoke forward :: fn serialize_i128 | serves=C13,C19 features=serialize
+//@rewrite &concat!("`", stringify!(i128), "`") ==> errs_()
+        fn serialize_i128(self, value: i128) -> (r: Result<Self::Ok, Self::Error>)
+            ensures // a primitive at the top level is an element named by the root tag -- an error without one
+                r is Ok ==> self.root_tag is Some,
+                r matches Ok(x) ==> x is Element && (self.root_tag matches Some(k)
+                    && (*final(self.ser.writer)).out() == (*old(self.ser.writer)).out() + self.ser.pre() + tag_open(k.0.spec_bytes()) + disp(value) + tag_close(k.0.spec_bytes())),
+        {
+            self.ser(errs_())?.serialize_i128(value)
+        }
+//@end
 //@extract se::Serializer::serialize_u8 | src/se/mod.rs :: impl<'w, 'r, W: Write> ser::Serializer for Serializer<'w, 'r, W> :: invoke forward :: fn serialize_u8 | serves=C13,C19 features=serialize
 //@rewrite &concat!("`", stringify!(u8), "`") ==> errs_()
         fn serialize_u8(self, value: u8) -> (r: Result<Self::Ok, Self::Error>)
@@ -311,6 +322,17 @@ impl<'w, 'r, W: Write> ser::Serializer for Serializer<'w, 'r, W> {
                     && (*final(self.ser.writer)).out() == (*old(self.ser.writer)).out() + self.ser.pre() + tag_open(k.0.spec_bytes()) + disp(value) + tag_close(k.0.spec_bytes())),
         {
             self.ser(errs_())?.serialize_u64(value)
+        }
+//@end
+//@extract se::Serializer::serialize_u128 | src/se/mod.rs :: impl<'w, 'r, W: Write> ser::Serializer for Serializer<'w, 'r, W> :: invoke serde_if_integer128 :: invoke forward :: fn serialize_u128 | serves=C13,C19 features=serialize
+//@rewrite &concat!("`", stringify!(u128), "`") ==> errs_()
+        fn serialize_u128(self, value: u128) -> (r: Result<Self::Ok, Self::Error>)
+            ensures // a primitive at the top level is an element named by the root tag -- an error without one
+                r is Ok ==> self.root_tag is Some,
+                r matches Ok(x) ==> x is Element && (self.root_tag matches Some(k)
+                    && (*final(self.ser.writer)).out() == (*old(self.ser.writer)).out() + self.ser.pre() + tag_open(k.0.spec_bytes()) + disp(value) + tag_close(k.0.spec_bytes())),
+        {
+            self.ser(errs_())?.serialize_u128(value)
         }
 //@end
 //@extract se::Serializer::serialize_f32 | src/se/mod.rs :: impl<'w, 'r, W: Write> ser::Serializer for Serializer<'w, 'r, W> :: invoke forward :: fn serialize_f32 | serves=C13,C19 features=serialize
